@@ -2,7 +2,8 @@
    Statements only; every proof is `exact <lemma>`.  All statements quantify over every reachable
    state = every label list = every interleaving of dispatcher, emitter and API threads, re-entrant
    calls from callbacks included, for both variants of start() (fixed = false: pinned code). *)
-Require Import WD.Base.Prelude WD.Model.Observer WD.Proofs.ObserverProofs WD.Proofs.ObserverExamples.
+Require Import WD.Base.Prelude WD.Model.Observer WD.Proofs.ObserverProofs WD.Proofs.ObserverInv WD.Proofs.ObserverRet
+  WD.Proofs.ObserverDisp WD.Proofs.ObserverExamples.
 
 (* FIFO per watch: what was dequeued so far, followed by what is still queued, is exactly what the
    emitters of that watch enqueued, in order. *)
@@ -34,16 +35,43 @@ Theorem C04_never_foreign : forall s, reachable s ->
 Proof. exact callbacks_registered. Qed.
 Print Assumptions C04_never_foreign.
 
-(* Full statement (not proved as one theorem): additionally, a dispatch ends (GTaskDone) only after every
-   handler of its snapshot had its turn, so that delivered h w = the dequeued events of w at whose
-   dispatch h was in the snapshot and registered at its turn.  In the model this is by construction of
-   DTurns (the loop leaves only when dtodo = []); the inductive invariant tying dtodo to the ghost log
-   is what is missing. *)
-Definition C04_full : Prop := forall s, reachable s -> forall h w,
-  exists sel : list bool, length sel = length (dequeued w s) /\
-    delivered h w s = map fst (filter snd (combine (dequeued w s) sel)).
+(* FULL STATEMENT.  [dl (glog s)] reads the log as the list of dispatches, newest first: event, watch, the
+   snapshot of the handler set taken under the lock, and the turns given so far, each with the flag
+   "the handler was registered for the watch at that moment" (computed from the registration events of
+   the log, not from the callbacks).  In every reachable state, for every handler h and watch w:
+   what h received for w is exactly, in order, the dequeued events of w in whose dispatch h had its turn
+   while registered; and the dequeued events of w are the dispatches of w (with C04_fifo: the queued
+   events of w, in order). *)
+Theorem C04_full : forall s, reachable s -> forall h w,
+  delivered h w s = map re (filter (sel h w) (rev (dl (glog s)))) /\
+  dequeued w s = map re (filter (selw w) (rev (dl (glog s)))).
+Proof. exact delivered_is_filtered_dequeued. Qed.
+Print Assumptions C04_full.
+
+(* Exactly once: every dispatch in the log except possibly the one in progress is complete - each handler
+   of its snapshot had exactly one turn (NoDup) and nobody else had one; a dispatch ends (the dispatcher
+   is back at an idle position) only when it is complete; the one in progress has served a duplicate-free
+   subset of its snapshot. *)
+Theorem C04_exactly_once : forall s, reachable s ->
+  match dl (glog s) with
+  | [] => True
+  | r :: ds =>
+      Forall complete ds /\ NoDup (map fst (rturns r)) /\
+      (forall hs, rsnap r = Some hs -> forall h, In h (map fst (rturns r)) -> In h hs) /\
+      (idle_pos (after_d (dcont s)) -> complete r)
+  end.
+Proof. exact dispatches_well_formed. Qed.
+Print Assumptions C04_exactly_once.
+
+(* A handler is called only by the dispatcher thread and only while it holds the observer lock
+   (so nobody else can change the handler sets during a dispatch). *)
+Theorem C04_callback_under_lock : forall s t i k inp s' h w e x, reachable s -> cont s t = i :: k ->
+  exec s t i k inp = Some s' -> glog s' = GCb h w e :: x :: glog s ->
+  t = TD /\ exists n, lock s = Some (TD, S n).
+Proof. exact callback_under_lock. Qed.
+Print Assumptions C04_callback_under_lock.
 
 Example C04_nonvacuous :
-  option_map (fun s => (delivered 1%N 2%N s, queued 2%N s, dequeued 2%N s, queue s)) (run init tr_deliver)
-  = Some ([7], [7], [7], [])%N.
+  option_map (fun s => (delivered 1%N 2%N s, queued 2%N s, dequeued 2%N s, queue s, dl (glog s))) (run init tr_deliver)
+  = Some ([7], [7], [7], [], [{| re := 7; rw := 2; rsnap := Some [1]; rturns := [(1, true)] |}])%N.
 Proof. vm_compute. reflexivity. Qed.
